@@ -176,17 +176,20 @@ class Connection(object):
             return
         self._closed = True
         self._channel.close()
-        self._local_root.on_disconnect(self)
-        self._request_callbacks.clear()
-        self._local_objects.clear()
-        self._proxy_cache.clear()
-        self._netref_classes_cache.clear()
-        self._last_traceback = None
-        self._remote_root = None
-        self._local_root = None
-        # self._seqcounter = None
-        # self._config.clear()
-        del self._HANDLERS
+        try:
+            self._local_root.on_disconnect(self)
+        finally:
+            # whatever the service's hook does, everything held for the peer is released
+            self._request_callbacks.clear()
+            self._local_objects.clear()
+            self._proxy_cache.clear()
+            self._netref_classes_cache.clear()
+            self._last_traceback = None
+            self._remote_root = None
+            self._local_root = None
+            # self._seqcounter = None
+            # self._config.clear()
+            del self._HANDLERS
 
     def close(self):  # IO
         """closes the connection, releasing all held resources"""
